@@ -36,7 +36,7 @@ SPEC = dict(
                 "order (`keyed_per_key_order`); per-key results of keyed fold and keyed scan depend only on the key's "
                 "subsequence (`keyed_result_depends_only_on_key_subsequence_fold/_scan`), and this holds across arbitrary "
                 "tick partitions and cross-key interleavings of two runs (`keyed_fold_all_partitions_interleavings`, "
-                "`keyed_scan_all_partitions_interleavings`). Tie: the ordered / keyed part of the corpus (60+ programs compiled "
+                "`keyed_scan_all_partitions_interleavings`). Tie: the ordered / keyed part of the corpus (58 programs compiled "
                 "through the production code generator) run under all/random tick partitions and, for keyed programs, under "
                 "random interleavings of different keys that keep each key's order; outputs diffed with the Lean driver "
                 "(keyed outputs compared per key via a stable sort by key) and checked on the real code against plain Rust "
